@@ -12,7 +12,7 @@ T5 text and binary formatters accept the same conversions, and the binary
 """
 import os
 import re
-from ..cfg import xrender, norm_facts, expand_locals, Facts, kids, strip, walk, cv, render, short_loc, call_args, TRANSPARENT, switch_sections
+from ..cfg import reach_calls, xrender, norm_facts, expand_locals, Facts, kids, strip, walk, cv, render, short_loc, call_args, TRANSPARENT, switch_sections
 from ..facts import export_many, export, AnalysisBroken
 from .. import units
 
@@ -1280,10 +1280,18 @@ def item_index_rule(rep, F, FW):
     # --- k / K ----------------------------------------------------------------------------------
     g = fn("WriteColumnSizes")
     n_k = 0
-    for c, lits, args in aprs(g):
+    kk = [(c, lits, args, g) for c, lits, args in aprs(g)]
+    # ... also through a helper that prints the record for both kinds (the format comes from the call)
+    for a_, c_, r_, o_ in reach_calls(FW, g, lambda x: x["k"] in ("CXXMemberCallExpr", "CallExpr") and (x.get("callee") or "").split("::")[-1] == "apr", depth=1):
+        if o_ is g:
+            continue
+        a2 = call_args(c_)
+        lits = lit_of(FW, r_(a2[1]), g) if len(a2) > 1 else None
+        kk.append((a_, lits, a2[2:], o_))
+    for c, lits, args, own in kk:
         if lits and all(s_[:1] in ("k", "K") for s_ in lits) and args:
             n_k += 1
-            t8.check(xaff(g, args[0]) == {"num_vars": 1.0, "num_rand_vars": 1.0, "1": -1.0}, "record|k|count|%d" % n_k, short_loc(c.get("l")),
+            t8.check(xaff(own, args[0]) == {"num_vars": 1.0, "num_rand_vars": 1.0, "1": -1.0}, "record|k|count|%d" % n_k, short_loc(c.get("l")),
                      "the column-size record announces num_vars + num_rand_vars - 1 entries", "it announces `%s`" % render(args[0]))
     if n_k < 2:
         t8.fail("record|k|count", short_loc(g.loc), "column-size headers not found")
